@@ -74,12 +74,16 @@ SIMPLER_CLASS = {
     "UnhashableVertex": "Vertex",
     "PriorityVertex": "Vertex",
     "MigratingVertex": "Vertex",
+    "JournalVertex": "Vertex",
+    "PortVertex": "Vertex",
+    "SanctuaryUniverse": "Universe",
     "LabelledEdge": "DirectedEdge",
     "SubUniverse": "Universe",
     "FalsyUniverse": "Universe",
     "RenamedDirected": "DirectedEdge",
     "FalsyClassEdge": "UnDirectedEdge",
     "FrozenEdge": "DirectedEdge",
+    "BrittleEdge": "UnDirectedEdge",
 }
 
 
